@@ -3042,6 +3042,79 @@ example : ∃ ev' ev : Ev Rat,
     rfl rfl (by decide) (by decide) (by decide) (by decide) [] _ [] [] _ [] a1 b1 (by simp [lex]) (by simp [lex]) rfl rfl
     (by decide) (by decide) a2.base b2.base
   exact ⟨ev', ev, by rw [h1], by rw [h2], h3⟩
+
+/-- helper for the non-vacuity examples under INLINE_QUANTITIES (`C17_w9Env`): a document of single-text-run steps
+    whose runs show something and hold no inline quantity is well formed once the decidable conditions hold -/
+theorem C17_w10ExDocWF (doc : List (DocItem × List Tok))
+    (h1 : (∀ d ∈ doc, d.1.ok C17_w9Env.cs C17_w9Env.ext = true) ∧ (∀ d ∈ doc, d.1.simple = true) ∧
+      sepsOK (doc.map (·.2)) = true ∧ WellSpelled C17_w9Env.cs ([] ++ docSpec doc) ∧
+      (parseFrontmatter C17_w9Env.cs (render ([] ++ docSpec doc))).isNone = true)
+    (h2 : ∀ d ∈ doc, ∃ l, d.1 = .step [.text l] ∧ l.flatMap vis ≠ [] ∧
+      findInlineQuantity (α := Rat) C17_w9Env ((l.flatMap vis).length + 1) [] (l.flatMap vis) = none) :
+    DocWF Rat C17_w9Env [] doc := by
+  obtain ⟨a, b, c, d, e⟩ := h1
+  refine ⟨by decide, a, b, ?_, ?_, c, d, by simpa using e⟩
+  · intro x hx
+    obtain ⟨l, hl, _⟩ := h2 x hx
+    rw [hl]; trivial
+  · intro x hx
+    obtain ⟨l, hl, h3, h4⟩ := h2 x hx
+    rw [hl]
+    intro sg hsg
+    simp only [List.mem_cons, List.not_mem_nil, or_false] at hsg
+    subst hsg
+    intro _
+    exact ⟨h3, h4⟩
+
+/-- `take 2 cups⏎` (no unit `cups` in the converter of `C17_w9Env`: the scan finds nothing) -/
+def C17_w10Doc : List (DocItem × List Tok) :=
+  [(.step [.text ([tk .word "take".toList, tk .ws [' ']] ++ [tk .int ['2'], tk .ws [' '], tk .word "cups".toList])],
+    [tk .newline ['\n']])]
+
+theorem C17_w10Doc_wf : DocWF Rat C17_w9Env [] C17_w10Doc :=
+  C17_w10ExDocWF _ (by decide) (by
+    intro d hd
+    simp only [C17_w10Doc, List.mem_cons, List.not_mem_nil, or_false] at hd
+    subst hd
+    exact ⟨_, rfl, by decide, by decide⟩)
+
+/-- **non-vacuity of the wave-9 theorems under INLINE_QUANTITIES**: `take [- c -] 2 cups⏎` against `take 2 cups⏎`
+    under `C17_w9Env` (extension on, unit `g` known): `DocWF` of the transformed document and the same recipe -/
+example : DocWF Rat C17_w9Env [] ([] ++ (DocItem.step ([] ++ SegX.text ([tk .word "take".toList, tk .ws [' ']] ++
+      [tk .blockComment "[- c -]".toList, tk .ws [' ']] ++ [tk .int ['2'], tk .ws [' '], tk .word "cups".toList]) :: []),
+      [tk .newline ['\n']]) :: []) :=
+  C17_insertion_in_text_wellformed_all_ext (α := Rat) C17_w9Env C17_w9_digits C17_w9_blank [] [] [] [tk .newline ['\n']] [] []
+    [tk .word "take".toList, tk .ws [' ']] [tk .blockComment "[- c -]".toList, tk .ws [' ']]
+    [tk .int ['2'], tk .ws [' '], tk .word "cups".toList]
+    (by intro t ht; simp only [List.mem_cons, List.not_mem_nil, or_false] at ht; rcases ht with rfl | rfl <;> rfl)
+    (by decide) (by decide) (Or.inr (Or.inr ⟨"take".toList, ' ', by decide, by decide⟩))
+    C17_w10Doc_wf (by decide)
+
+example : SameRecipe (α := Rat) (fun c => c = ' ')
+    (parseRecipe C17_w9Env "take [- c -] 2 cups\n".toList) (parseRecipe C17_w9Env "take 2 cups\n".toList) := by
+  have h := C17_insertion_in_text_same_recipe (α := Rat) C17_w9Env (fun c => c = ' ')
+    (by intro c hc; simp only [decide_eq_true_eq] at hc; subst hc; decide) C17_w9_digits C17_w9_blank []
+    [] [] [tk .newline ['\n']] [] [] [tk .word "take".toList, tk .ws [' ']]
+    [tk .blockComment "[- c -]".toList, tk .ws [' ']] [tk .int ['2'], tk .ws [' '], tk .word "cups".toList]
+    (by intro t ht; simp only [List.mem_cons, List.not_mem_nil, or_false] at ht; rcases ht with rfl | rfl <;> rfl)
+    (by decide)
+    (by decide) (Or.inr (Or.inr ⟨"take".toList, ' ', by decide, by decide⟩)) (by intro s hs; cases hs)
+    C17_w10Doc_wf (by decide)
+  have e1 : render ([] ++ docSpec ([] ++ (DocItem.step ([] ++ SegX.text ([tk .word "take".toList, tk .ws [' ']] ++
+      [tk .blockComment "[- c -]".toList, tk .ws [' ']] ++ [tk .int ['2'], tk .ws [' '], tk .word "cups".toList]) :: []),
+      [tk .newline ['\n']]) :: [])) = "take [- c -] 2 cups\n".toList := by decide
+  have e2 : render ([] ++ docSpec ([] ++ (DocItem.step ([] ++ SegX.text ([tk .word "take".toList, tk .ws [' ']] ++
+      [tk .int ['2'], tk .ws [' '], tk .word "cups".toList]) :: []), [tk .newline ['\n']]) :: [])) = "take 2 cups\n".toList := by decide
+  rw [e1, e2] at h
+  exact h
+
+/-- … and the hypothesis bites: with the known unit the original is NOT well formed (its text run holds the inline
+    quantity `2 g`), so the theorem says nothing about `take 2 g⏎` -/
+example : ¬ (SegX.text [tk .word "take".toList, tk .ws [' '], tk .int ['2'], tk .ws [' '], tk .word "g".toList]).extOK Rat C17_w9Env := by
+  intro h
+  have := (h (by decide)).2
+  revert this
+  decide
 -- ===== end w10c17val =====
 
 end Cook
